@@ -18,7 +18,7 @@ ALPHA = ["S", "L", "H", "#", "E", "\t", " ", "A", "+", "-", "*", "0", "1", "$",
          ":", "i", "J", "{", "\n", "\r", "\x00", "\u00e9"]
 MUT_ALPHA = ["\t", " ", "*", "+", "-", "0", "9", "$", ":", ",", "A", "{", "\n",
              "\x00", "\u00e9", "i", "Z", "\u00b2"]
-API_ALPHA = ["A", "p", "x", "1", "*", "+", " ", "\t", ":", "\u00e9"]
+API_ALPHA = ["A", "a", "x", "1", "*", "+", " ", "\t", ":", "\u00e9"]
 GFAPY_DIR = os.path.join(os.path.realpath(REPO), "gfapy") + os.sep
 
 
@@ -40,7 +40,11 @@ def site_of(exc):
   site = "?"
   while tb is not None:
     fn = os.path.realpath(tb.tb_frame.f_code.co_filename)
-    if fn.startswith(GFAPY_DIR):
+    if fn.startswith(GFAPY_DIR) and not fn.endswith("dynamic_fields.py") \
+        and not (fn.endswith("oriented_line.py") and
+                 tb.tb_frame.f_code.co_name == "__getattr__"):
+      # (attribute look-ups all pass through dynamic_fields.__getattribute__;
+      #  the caller is the informative site)
       site = "gfapy/" + fn[len(GFAPY_DIR):] + ":" + tb.tb_frame.f_code.co_name
     tb = tb.tb_next
   return site
@@ -210,6 +214,27 @@ def api_calls(version, vlevel):
       ("header-add", lambda g, s: (g.header.add("xx", s), str(g))),
       ("header-set", lambda g, s: (g.header.set(s, 1), str(g))),
   ]
+  if version == "gfa2":
+    # documented in doc/tutorial/references.rst, "Adding and removing group
+    # elements", on connected and on stand-alone group lines
+    O = lambda g: g.line("o1")
+    U = lambda g: g.line("u1")
+    SO = lambda: gfapy.Line("O\to9\ta+ b-", version="gfa2", vlevel=vlevel)
+    SU = lambda: gfapy.Line("U\tu9\ta b", version="gfa2", vlevel=vlevel)
+    menu += [
+        ("group-append_item", lambda g, s: (O(g).append_item(gfapy.OrientedLine(s, "+")), str(g), g.validate())),
+        ("group-prepend_item", lambda g, s: (O(g).prepend_item(gfapy.OrientedLine(s, "-")), str(g), g.validate())),
+        ("group-rm_first_item", lambda g, s: (O(g).rm_first_item(), str(g), g.validate())),
+        ("group-rm_last_item", lambda g, s: (O(g).rm_last_item(), str(g), g.validate())),
+        ("group-add_item", lambda g, s: (U(g).add_item(s), str(g), g.validate())),
+        ("group-rm_item", lambda g, s: (U(g).rm_item(s), str(g), g.validate())),
+        ("group-append_item-standalone", lambda g, s: (lambda l: (l.append_item(gfapy.OrientedLine(s, "+")), str(l)))(SO())),
+        ("group-prepend_item-standalone", lambda g, s: (lambda l: (l.prepend_item(gfapy.OrientedLine(s, "-")), str(l)))(SO())),
+        ("group-rm_first_item-standalone", lambda g, s: (lambda l: (l.rm_first_item(), str(l)))(SO())),
+        ("group-rm_last_item-standalone", lambda g, s: (lambda l: (l.rm_last_item(), str(l)))(SO())),
+        ("group-add_item-standalone", lambda g, s: (lambda l: (l.add_item(s), str(l)))(SU())),
+        ("group-rm_item-standalone", lambda g, s: (lambda l: (l.rm_item(s), str(l)))(SU())),
+    ]
   return fresh, menu
 
 
